@@ -506,6 +506,24 @@ def short(path):
 _OVF = {"AddWithOverflow": "Add", "SubWithOverflow": "Sub", "MulWithOverflow": "Mul"}
 
 
+def _ok(x):
+    """the success payload of x; where x is visibly built from Ok/Some/Err/None values only the successful alternatives matter"""
+    if x[0] == "agg" and x[1] in ("adt:Ok", "adt:Some") and len(x[3]) == 1:
+        return x[3][0][1]
+    if x[0] == "phi":
+        good, pay = True, []
+        for a in x[1]:
+            if a[0] == "agg" and a[1] in ("adt:Ok", "adt:Some") and len(a[3]) == 1:
+                pay.append(a[3][0][1])
+            elif (a[0] == "agg" and a[1] in ("adt:Err", "adt:None")) or a[0] == "errprop":
+                continue
+            else:
+                good = False
+        if good and pay:
+            return mkphi(tuple(pay))
+    return ("ok", x)
+
+
 def norm(e):
     """rewrite MIR idioms into their source-level meaning:
        XWithOverflow(a,b).0 -> X(a,b);  Try::branch(x)@Continue.0 -> ('ok', x);  x@Ok.0 / x@Some.0 -> ('ok', x)
@@ -519,11 +537,11 @@ def norm(e):
             if b[0] == "variant":
                 inner = b[1]
                 if b[2] == "Continue" and inner[0] == "call" and inner[1].endswith("Try::branch"):
-                    return ("ok", inner[2][0])
+                    return _ok(inner[2][0])
                 if b[2] == "Break" and inner[0] == "call" and inner[1].endswith("Try::branch"):
                     return ("residual", inner[2][0])
                 if b[2] in ("Ok", "Some"):
-                    return ("ok", inner)
+                    return _ok(inner)
                 if b[2] == "Err":
                     return ("err", inner)
         return ("field", b, e[2])
